@@ -25,6 +25,10 @@ import z3
 # --------------------------------------------------------------------------
 # symbolic values
 # --------------------------------------------------------------------------
+_CANON = z3.Int('__canonical_char__')
+_DOMAIN_CACHE = {}
+
+
 class Sym:
     pass
 
@@ -378,6 +382,9 @@ class Engine:
         self.pc = []
         self.timeout_ms = 120000
         self.unknowns = []
+        self.implied = {}
+        self.model = None
+        self.domains = {}
         self.summarize = set()   # pure repository functions explored once per call site and returned as one ite term
         self.in_summary = 0
 
@@ -436,6 +443,8 @@ class Engine:
             self.pc = []
             self.guards = []
             self.fresh_n = 0
+            self.implied = {}
+            self.model = None
             try:
                 r = harness(self)
                 results.append(r)
@@ -467,6 +476,12 @@ class Engine:
     def assume(self, z):
         self.solver.add(z)
         self.pc.append(z)
+        if self.model is not None:
+            try:
+                if not z3.is_true(self.model.eval(z, model_completion=True)):
+                    self.model = None
+            except z3.Z3Exception:
+                self.model = None
 
     def guard(self):
         if not self.guards:
@@ -498,7 +513,11 @@ class Engine:
             return DEAD
 
     def decide(self, z, raw=False):
-        """fork on z (python bool or z3 Bool); under a merge guard g the fork is on g∧z"""
+        """fork on z (python bool or z3 Bool); under a merge guard g the fork is on g∧z.
+        Two accelerations that do not change the explored tree: (1) conditions already known to be implied by the path
+        condition (or their negations) are answered from a per-path cache - the path condition only grows, so an
+        implication stays valid; (2) a model of the current path condition is kept, so that only the side the model does
+        not witness needs a solver call."""
         if isinstance(z, bool):
             return z
         g = None if raw else self.guard()
@@ -509,30 +528,133 @@ class Engine:
             return True
         if z3.is_false(z):
             return False
+        key = z.get_id()
+        hit = self.implied.get(key)
+        if hit is not None:
+            return hit[0]
         if self.pos < len(self.decisions):
             d = self.decisions[self.pos]
             self.pos += 1
             self.assume(z if d else z3.Not(z))
+            self._keep(z)
+            self.implied[key] = (d, z)        # z kept alive: AST ids are reused after collection
             return d
-        can_t = self.check(z) == z3.sat
-        can_f = self.check(z3.Not(z)) == z3.sat
+        qe = self._domain_eval(z) if self.domains else None
+        if qe is not None:
+            # decided by enumerating the declared finite domain of the only variable involved (sound: the path condition
+            # can only shrink that domain); recorded like any forced decision so that re-execution stays in step
+            self.decisions.append(qe)
+            self.pos += 1
+            self.implied[key] = (qe, z)
+            return qe
+        witness = None
+        if self.model is not None:
+            try:
+                mv = self.model.eval(z, model_completion=True)
+                witness = True if z3.is_true(mv) else (False if z3.is_false(mv) else None)
+            except z3.Z3Exception:
+                witness = None
+        if witness is True:
+            can_t = True
+            can_f = self.check(z3.Not(z)) == z3.sat
+        elif witness is False:
+            can_f = True
+            can_t = self.check(z) == z3.sat
+            if can_t:
+                self._grab_model()
+        else:
+            can_t = self.check(z) == z3.sat
+            if can_t:
+                self._grab_model()
+            can_f = self.check(z3.Not(z)) == z3.sat
+            if can_f and not can_t:
+                self._grab_model()
         if can_t and can_f:
             self.pending.append(self.decisions[:self.pos] + [False])
             self.decisions.append(True)
             self.pos += 1
             self.assume(z)
+            self._keep(z)
+            self.implied[key] = (True, z)
             return True
         if can_t:
             self.decisions.append(True)
             self.pos += 1
             self.assume(z)
+            self.implied[key] = (True, z)
             return True
         if can_f:
             self.decisions.append(False)
             self.pos += 1
             self.assume(z3.Not(z))
+            self.implied[key] = (False, z)
             return False
         raise Infeasible()
+
+    def declare_domain(self, var, values):
+        """var: z3 Int constant assumed (by the harness) to take one of `values`; lets conditions over that single
+        variable be decided by enumeration instead of a solver call"""
+        self.domains[var.get_id()] = (var, tuple(sorted(set(values))))
+
+    def _domain_eval(self, z):
+        seen = None
+        stack = [z]
+        n = 0
+        while stack:
+            t = stack.pop()
+            n += 1
+            if n > 400:
+                return None
+            if z3.is_const(t):
+                if t.decl().kind() == z3.Z3_OP_UNINTERPRETED:
+                    if seen is None:
+                        seen = t
+                    elif seen.get_id() != t.get_id():
+                        return None
+            else:
+                stack.extend(t.children())
+        if seen is None or seen.get_id() not in self.domains:
+            return None
+        var, values = self.domains[seen.get_id()]
+        # the same test recurs on many characters: decide it once per (domain, shape)
+        canon = z3.substitute(z, (var, _CANON))
+        ck = (values, canon.get_id())
+        if ck in _DOMAIN_CACHE:
+            return _DOMAIN_CACHE[ck][0]
+        res = self._domain_enum(z, var, values)
+        _DOMAIN_CACHE[ck] = (res, canon)      # canon kept alive so that its id is not reused
+        return res
+
+    def _domain_enum(self, z, var, values):
+        res = None
+        for v in values:
+            r = z3.simplify(z3.substitute(z, (var, z3.IntVal(v))))
+            if z3.is_true(r):
+                b = True
+            elif z3.is_false(r):
+                b = False
+            else:
+                return None
+            if res is None:
+                res = b
+            elif res != b:
+                return None
+        return res
+
+    def _grab_model(self):
+        try:
+            self.model = self.solver.model()
+        except z3.Z3Exception:
+            self.model = None
+
+    def _keep(self, z):
+        """the kept model stays usable only if it satisfies what was just assumed"""
+        if self.model is not None:
+            try:
+                if not z3.is_true(self.model.eval(z, model_completion=True)):
+                    self.model = None
+            except z3.Z3Exception:
+                self.model = None
 
     def truth(self, v):
         if isinstance(v, SBool):
@@ -778,6 +900,7 @@ class Engine:
                 prefix = stack.pop()
                 self.decisions, self.pos, self.pending = list(prefix), 0, []
                 self.solver.push()
+                saved_implied, saved_model = dict(self.implied), self.model
                 try:
                     try:
                         v, kind = self.call_function(fn, args, kwargs), 'ret'
@@ -790,6 +913,7 @@ class Engine:
                 finally:
                     self.solver.pop()
                     del self.pc[base:]
+                    self.implied, self.model = saved_implied, saved_model
                 stack.extend(self.pending)
                 if len(results) > 5000:
                     raise Unsupported('summary of ' + fn.__qualname__ + ' has too many paths')
